@@ -1,14 +1,174 @@
-"""C13 - the saved .cfg reproduces the run (parse -> save -> parse on the real ProgramOptions)"""
+"""C13 - the saved .cfg reproduces the run
+   (a) API level: parse -> save -> parse on the real ProgramOptions, every getter compared exactly;
+   (b) process level: run the real binary, run it again from the .cfg it wrote, compare every dataset and attribute of the two results files bitwise."""
+import itertools
+import os
+import sys
+
+import vlib
 from checks import _api
+sys.path.insert(0, os.path.join(vlib.VERIF, "proc"))
+import pl  # noqa: E402
 LEVEL = "exploration"
+
+PBASE = ["--GridSize", 32, "--StepsPerTs", 32, "--rotations", 0.5, "--outstep", 4, "--padding", 2]
+
+
+def merged(extra):
+    """PBASE with the options named in extra removed (an option may be given only once)"""
+    given = set(str(x) for x in extra if str(x).startswith("--"))
+    out = []
+    for i in range(0, len(PBASE), 2):
+        if PBASE[i] not in given:
+            out += PBASE[i:i + 2]
+    return out + list(extra)
+# option -> runnable non-default values (argument lists); values with many digits stress the writer's precision
+DEV = {
+    "alpha0": [["5e-3"], ["1.2345678e-3"]], "alpha1": [["0.01"], ["-0.0234567"]], "alpha2": [["0.5"]],
+    "SynchrotronFrequency": [["45000"], ["8123.4561"]], "RevolutionFrequency": [["2.7e6"], ["1234567.9"]], "DampingTime": [["0.001"], ["2.5123456789e-3"]],
+    "HarmonicNumber": [["184"]], "InitialDistZoom": [["0.8"], ["1.3456789012"]],
+    "BunchCurrent": [["1e-3"], ["1e-3", "0", "2.3456789e-3"], ["1.2345678e-4", "1.2345678e-4"]], "BendingRadius": [["5.559"], ["1.0000000001"]],
+    "BeamEnergy": [["2.5e9"], ["1300000001"]], "BeamEnergySpread": [["1e-3"], ["4.7123456789e-4"]], "Impedance": [["z.dat"]],
+    "VacuumGap": [["-0.03"], ["0.0512345678"], ["0"]], "UseCSR": [["false"]], "CollimatorRadius": [["0.002"], ["0.00123456789"]],
+    "WallConductivity": [["5.8e7"], ["1412345.678"]], "WallSusceptibility": [["-0.5"]], "CutoffFreq": [["0"], ["1.2345678e10"]],
+    "AcceleratingVoltage": [["1.5e6"], ["123456.789012"]], "LinearRF": [["false"]],
+    "RFPhaseModAmplitude": [["1"], ["0.2345678901"]], "RFPhaseModFrequency": [["4e4"], ["12345.678901"]],
+    "outstep": [["7"], ["1"]], "SavePhaseSpace": [["2"], ["1"]], "tracking": [["t.txt"]], "verbose": [["true"]],
+    "StepsPerTs": [["64"], ["21"]], "StepsPerRevolution": [["0.5"], ["0.3141592653"]], "padding": [["3"], ["2.5000001"]], "RoundPadding": [["false"]],
+    "PhaseSpaceSize": [["10"], ["14.567891"]], "PhaseSpaceShiftX": [["2"], ["-1.2345678"]], "PhaseSpaceShiftY": [["-3"], ["0.7654321"]],
+    "RenormalizeCharge": [["-1"], ["5"]], "FPType": [["1"], ["0"]], "FPTrack": [["0"], ["2"]], "GridSize": [["64"], ["33"]],
+    "rotations": [["1.25"], ["0.1234567891"]], "derivation": [["3"]], "InterpolationPoints": [["3"], ["2"]], "InterpolateClamped": [["true"]],
+    "InitialDistFile": [["start.h5"]], "InitialDistStep": [["0"]],
+}
+# options that only act together with another one
+COMPANION = {"RFPhaseModFrequency": ["--RFPhaseModAmplitude", "0.5"], "RFPhaseModAmplitude": ["--RFPhaseModFrequency", "30000"], "FPTrack": ["--tracking", "t.txt"], "tracking": ["--FPTrack", "1"],
+             "WallSusceptibility": ["--WallConductivity", "5.8e7"], "InitialDistStep": ["--InitialDistFile", "start.h5"]}
+
+
+def compare(a, b):
+    """names of datasets / attributes that differ between two h5json documents"""
+    bad = []
+    for name in sorted(set(a["datasets"]) | set(b["datasets"])):
+        x, y = a["datasets"].get(name), b["datasets"].get(name)
+        if name == "/Info/Inovesa_build":
+            continue
+        if x is None or y is None or x["dims"] != y["dims"] or x.get("rowhash") != y.get("rowhash") or \
+                (not x.get("rowhash") and x.get("data") != y.get("data")):
+            bad.append(name)
+    for name in sorted(set(a["attrs"]) | set(b["attrs"])):
+        if name.split("@")[-1] in ("HaissinskiIterations", "InitialDistParam", "RotationType", "SaveSourceMap"):
+            continue   # compatibility-only options: recorded as parameters only when a config file is read, never used
+        if a["attrs"].get(name) != b["attrs"].get(name):
+            bad.append("attribute " + name)
+    return bad
+
+
+def process_level(res, tier):
+    exe = pl.build.build_bin("plain")
+    wd = pl.workdir("c13p")
+    with open(os.path.join(wd, "t.txt"), "w") as f:
+        f.write("0.5 0.3\n-1.2 0.8\n")
+    with open(os.path.join(wd, "z.dat"), "w") as f:
+        for k in range(40):
+            f.write("%g %g %g\n" % (k * 1e9, 50 + k, -0.5 * k))
+    r = pl.run(exe, merged(["--rotations", 0.25, "--SavePhaseSpace", 1]), wd, out="start.h5")
+    if r["rc"] != 0:
+        res.violate("C13/process/start-file-run-failed", "start.h5", r["log"][-300:])
+        return
+    singles = [(o, i, v) for o, vs in DEV.items() for i, v in enumerate(vs)]
+    cases = [("default", [])] + [("single %s#%d" % (o, i), ["--" + o] + v + COMPANION.get(o, [])) for o, i, v in singles]
+    # the same deviations given through a parent config file instead of the command line
+    cfgcases = [("cfg %s#%d" % (o, i), (o, v)) for o, i, v in singles if o not in COMPANION]
+    if tier == "thorough":
+        names = sorted(DEV)
+        for a, b in itertools.combinations(names, 2):
+            if COMPANION.get(a, [""])[0] == "--" + b or COMPANION.get(b, [""])[0] == "--" + a:
+                continue
+            comp = [c for o in (a, b) for c in COMPANION.get(o, [])]
+            if ("--" + a) in comp or ("--" + b) in comp:
+                continue
+            if {a, b} == {"InitialDistFile", "GridSize"} or {a, b} == {"InitialDistStep", "GridSize"}:
+                continue     # a start file of another grid size is refused (C11/C17 territory)
+            va, vb = DEV[a][-1], DEV[b][0]
+            cases.append(("pair %s+%s" % (a, b), ["--" + a] + va + ["--" + b] + vb + comp))
+    pl.warm(exe, [merged(["--GridSize", s, "--padding", p] + rp) for s in (32, 64, 33) for p in (2, 3, 2.5000001) for rp in ([], ["--RoundPadding", "false"])], "c13warm")
+
+    def do(job):
+        idx, (name, spec) = job
+        base = list(pl.BASE)
+        extra = spec
+        if name.startswith("cfg "):
+            o, v = spec
+            cp = os.path.join(wd, "parent_%d.cfg" % idx)
+            with open(cp, "w") as f:
+                for t in v:
+                    f.write("%s=%s\n" % (o, t))
+            base = ["--config", cp, "--cldev", "0"]
+            extra = []
+        import subprocess
+        oa, ob = os.path.join(wd, "a_%d.h5" % idx), os.path.join(wd, "b_%d.h5" % idx)
+        ca = [exe] + base + ["-o", oa] + [str(x) for x in merged(extra)]
+        def sub(cmd):
+            try:
+                return subprocess.run(cmd, cwd=wd, env=vlib.env(), capture_output=True, text=True, errors="replace", timeout=90)
+            except subprocess.TimeoutExpired:
+                return subprocess.CompletedProcess(cmd, -999, "TIMEOUT after 90 s", "")
+        ra = sub(ca)
+        cb = [exe, "--config", oa + ".cfg", "-o", ob]
+        rb = sub(cb) if ra.returncode == 0 and os.path.exists(oa + ".cfg") else None
+        da = pl.h5(oa, maxv=64) if ra.returncode == 0 else None
+        db = pl.h5(ob, maxv=64) if rb is not None and rb.returncode == 0 else None
+        for p in (oa, ob):
+            for suf in ("", ".cfg", ".log"):
+                try:
+                    os.remove(p + suf)
+                except OSError:
+                    pass
+        return name, " ".join(ca), " ".join(cb), ra, rb, da, db
+
+    unrunnable = []
+    for name, ca, cb, ra, rb, da, db in pl.pmap(do, list(enumerate(cases + cfgcases))):
+        opt = name.split()[1].split("#")[0] if " " in name else "default"
+        rp = dict(cmd=ca, rerun=cb)
+        if (ra.returncode != 0 or da is None or "error" in da) and name.startswith("pair "):
+            # the combination itself is not a usable invocation (nothing to reproduce): counted, not judged
+            unrunnable.append("%s (rc=%s)" % (name, ra.returncode))
+            continue
+        if ra.returncode != 0 or da is None or "error" in da:
+            res.violate("C13/process/original-run-failed/%s" % opt, name, "rc=%s %s" % (ra.returncode, (ra.stdout + ra.stderr)[-200:]), replay=rp)
+            continue
+        if rb is None or rb.returncode != 0 or db is None or "error" in db:
+            res.violate("C13/process/rerun-from-saved-cfg-failed/%s" % opt, name, "rc=%s %s" % (None if rb is None else rb.returncode, "" if rb is None else (rb.stdout + rb.stderr)[-200:]), replay=rp)
+            continue
+        res.eval("process " + name, pl.chash(name, sorted((k, str(v.get("rowhash"))) for k, v in da["datasets"].items())), trivial=False)
+        bad = compare(da, db)
+        if bad:
+            res.violate("C13/process/rerun-differs/%s" % opt, name, "the run from the saved .cfg differs from the original in: %s" % ", ".join(bad[:6]), replay=rp)
+    res.coverage["process_pairs_whose_original_invocation_does_not_run"] = unrunnable
+    res.bounds_done.append("process level: default + every option singly (%d values, command line and parent config)%s; original run vs run from its saved .cfg, all datasets and attributes bitwise"
+                           % (len(singles), " + all pairs of options" if tier == "thorough" else ""))
 
 
 def run(res, tier):
     res.assumptions += [
         "two non-default values per option (one of them needing more than 6 significant digits)",
         "run_anyway and config are not compared: run_anyway cannot influence a run that writes a .cfg (it only matters without an output file), config names the parent file",
-        "gui / ForceOpenGLVersion have no compiled getter in this build (OpenGL off)"]
-    return _api.run(res, tier, ["C13_cfg"])
+        "gui / ForceOpenGLVersion have no compiled getter in this build (OpenGL off)",
+        "process level: RF noise (RFAmplitudeSpread / RFPhaseSpread > 0) is left out of the bitwise comparison - its generator is seeded from the system's random device; "
+        "particle tracking is run with a deterministic model (FPTrack 0-2; model 3 draws from the random device); the rerun is given -o (a new file name) on top of the saved .cfg; /Info/Inovesa_build is not compared"]
+    confirm = _api.run(res, tier, ["C13_cfg"])
+    process_level(res, tier)
+
+    def conf(v):
+        if (v.get("replay") or {}).get("harness"):
+            return confirm(v)
+        return True
+    return conf
 
 
-replay = _api.replay
+def replay(doc):
+    rp = doc.get("replay") or {}
+    if rp.get("harness"):
+        return _api.replay(doc)
+    print("re-run:", rp)
+    return 1
